@@ -12,4 +12,6 @@ cp -f /repo/Cargo.lock harness-app/Cargo.lock
 ( cd harness-app && cargo build --offline -q --bins ) || echo "setup: harness-app build incomplete"
 cp -f /repo/Cargo.lock harness-net/Cargo.lock
 ( cd harness-net && cargo build --offline -q --bins ) || echo "setup: harness-net build incomplete"
+cp -f /repo/Cargo.lock harness-k8s/Cargo.lock
+( cd harness-k8s && cargo build --offline -q --bins ) || echo "setup: harness-k8s build incomplete"
 echo "setup done"
